@@ -432,7 +432,7 @@ Definition spill_A : sym := {| s_addr := 0; s_size := 6; s_type := ST_GLOBAL_FUN
 Definition spill_B : sym := {| s_addr := 6; s_size := 3; s_type := ST_GLOBAL_FUNC; s_name := [98] |}.
 Definition spill_mem : mem := mem_of 0 (endbr64 ++ [144; 144] ++ [144; 144; 144] ++ [195; 204; 204; 204; 204; 204; 204; 204]).
 Definition spill_cfg : cfg :=
-  {| c_pats := [{| pi_patt := {| pt_type := PGlob; pt_str := [42] |}; pi_mod := []; pi_pos := true |}];
+  {| c_pats := [{| pi_patt := {| pt_type := PGlob; pt_str := [42] |}; pi_mod := []; pi_pos := true; pi_exact := false |}];
      c_lib := [109]; c_so := None; c_ty := DFentryNop; c_tramp := 4080; c_min := 0 |}.
 Lemma spill_refuted :
   s_addr spill_A + s_size spill_A <= s_addr spill_B        (* the two symbols do not overlap *)
